@@ -319,6 +319,11 @@ def render_block(o, b, depth=0):
         for x in b["items"]:
             render_block(o, x, depth + 1)
         o.line(depth, ")")
+    elif t == "bare_method":
+        render_method(o, depth, b["m"], False)
+    elif t == "resp":
+        r = b["r"]
+        render_spec(o, depth, r["code"], annot(r["annot"]), r["spec"], r["headers"], HDR)
     elif t == "paste":
         o.line(depth, "PASTE %s" % o.par(b["name"]), "PASTE")
     elif t == "include":
